@@ -271,7 +271,7 @@ def run(prog: Program, rep: Report, tier: str = "quick") -> None:
     seen = set()
     for lst in parallel_map(_job, jobs):
         for d in lst:
-            key = (d["rule"], d["verdict"], d["module"], d["function"], d["construct"])
+            key = (d["rule"], d["verdict"], d["module"], d["function"], d["construct"], d.get("model", ""))
             if key in seen:
                 continue
             seen.add(key)
@@ -286,7 +286,7 @@ def run(prog: Program, rep: Report, tier: str = "quick") -> None:
                 sjobs.append((i, op, "n>=3"))
     for lst in parallel_map(_shift_job, sjobs):
         for d in lst:
-            key = (d["rule"], d["verdict"], d["module"], d["function"], d["construct"])
+            key = (d["rule"], d["verdict"], d["module"], d["function"], d["construct"], d.get("model", ""))
             if key in seen:
                 continue
             seen.add(key)
